@@ -174,9 +174,10 @@ def make_resolver(coord, bundle=None):
             if kind == "raise_tf":
                 if zlib.crc32(repr(path).encode()) % 3 == 0:
                     raise KeyedError(tf[0], "k", extensions=dict(tf[1]), developer=tf[2] if len(tf) > 2 else None)
+                preset = {"path": list(path)} if zlib.crc32(repr(path).encode()) % 5 == 1 else {}  # the application located it itself
                 if len(tf) > 2 and tf[2] is not None:
-                    raise UserError(tf[2], user_message=tf[0], extensions=dict(tf[1]))
-                raise UserError(tf[0], extensions=dict(tf[1]))
+                    raise UserError(tf[2], user_message=tf[0], extensions=dict(tf[1]), **preset)
+                raise UserError(tf[0], extensions=dict(tf[1]), **preset)
             if kind == "raise_odd":
                 from simv.model.exec import EmptyMessageError, PathCarryingError, PayloadError, UnprintableError
                 which = zlib.crc32(repr(path).encode()) % 4
